@@ -15,11 +15,11 @@ static const char *PNAME[3] = { "tlcp", "tls12", "tls13" };
 typedef struct { uint8_t certs[6000]; size_t certslen; uint8_t cacerts[3000]; size_t cacertslen; SM2_KEY signkey, kenckey; } side_creds;
 /* key pool use: root CK[5]; server leaf CK[0], server enc CK[6]; client leaf CK[2], client enc CK[7]; intermediates CK[1], CK[3]; rogue root CK[9] */
 /* depth = number of certificates in the chain below the root: 1 (leaf only) .. 3 (leaf + 2 intermediates).  defect knobs applied to the leaf / first CA. */
-typedef struct { int chain_total /* > 0 (honest knob): the leaf certificate is padded so that the presented chain is exactly this many octets */; int notyet32 /* valid from now + 2^32 s - 1 h for a year: an alias of 'valid now' for 32-bit time arithmetic */; int expired, notyet, sigflip, untrusted_root, issuer_no_bc, issuer_ca_false, issuer2_no_bc, issuer2_ca_false, wrong_signkey, wrong_enckey, wrong_order, empty_chain, enc_forged /* TLCP encryption certificate signed by an unrelated key (its private key is held) */, enc_expired, issuer_forged /* the first CA certificate is signed by an unrelated key (the impostor made his own issuing CA naming the genuine upper CA) */, issuer2_no_pathlen /* the CA above it carries basicConstraints without pathLenConstraint */, lookalike /* with untrusted_root, depth 1: the impostor's certificate copies the SHAPE of the trust anchor - its serial number, validity, issuer name, total and TBS length (same first octets) - but carries the impostor's key and is signed by it */; } cred_defects;
+typedef struct { int expired1h, notyet1h /* expired one hour ago / valid from in one hour: inside any time-zone offset */; int chain_total /* > 0 (honest knob): the leaf certificate is padded so that the presented chain is exactly this many octets */; int notyet32 /* valid from now + 2^32 s - 1 h for a year: an alias of 'valid now' for 32-bit time arithmetic */; int expired, notyet, sigflip, untrusted_root, issuer_no_bc, issuer_ca_false, issuer2_no_bc, issuer2_ca_false, wrong_signkey, wrong_enckey, wrong_order, empty_chain, enc_forged /* TLCP encryption certificate signed by an unrelated key (its private key is held) */, enc_expired, issuer_forged /* the first CA certificate is signed by an unrelated key (the impostor made his own issuing CA naming the genuine upper CA) */, issuer2_no_pathlen /* the CA above it carries basicConstraints without pathLenConstraint */, lookalike /* with untrusted_root, depth 1: the impostor's certificate copies the SHAPE of the trust anchor - its serial number, validity, issuer name, total and TBS length (same first octets) - but carries the impostor's key and is signed by it */; } cred_defects;
 static int build_side(side_creds *sc, int proto, int is_client, int depth, const cred_defects *df) {
 	creds_init(); memset(sc, 0, sizeof *sc); cert_spec leaf, enc, ca[3], root; const SM2_KEY *leafk = is_client ? &CK[2] : &CK[0], *enck = is_client ? &CK[7] : &CK[6], *rootk = (df && df->untrusted_root) ? &CK[9] : &CK[5];
 	spec_leaf(&leaf, is_client ? "c" : "s", X509_KU_DIGITAL_SIGNATURE); spec_leaf(&enc, is_client ? "d" : "e", X509_KU_KEY_ENCIPHERMENT); spec_ca(&root, "R", -1);
-	if (df && df->expired) { leaf.nb = VENV_NOW - 400 * 86400; leaf.na = VENV_NOW - 86400; } if (df && df->notyet) { leaf.nb = VENV_NOW + 86400; leaf.na = VENV_NOW + 100 * 86400; } if (df && df->notyet32) { leaf.nb = VENV_NOW + ((time_t)1 << 32) - 3600; leaf.na = leaf.nb + 365 * 86400; } if (df && df->sigflip) leaf.sig = 1;
+	if (df && df->expired) { leaf.nb = VENV_NOW - 400 * 86400; leaf.na = VENV_NOW - 86400; } if (df && df->notyet) { leaf.nb = VENV_NOW + 86400; leaf.na = VENV_NOW + 100 * 86400; } if (df && df->expired1h) { leaf.nb = VENV_NOW - 30 * 86400; leaf.na = VENV_NOW - 3600; } if (df && df->notyet1h) { leaf.nb = VENV_NOW + 3600; leaf.na = VENV_NOW + 30 * 86400; } if (df && df->notyet32) { leaf.nb = VENV_NOW + ((time_t)1 << 32) - 3600; leaf.na = leaf.nb + 365 * 86400; } if (df && df->sigflip) leaf.sig = 1;
 	int nca = depth - 1; const SM2_KEY *cak[3] = { &CK[1], &CK[3], &CK[4] }; char cacn[3][4] = { "A", "B", "C" };
 	for (int i = 0; i < nca; i++) { spec_ca(&ca[i], cacn[i], i); } if (df && nca >= 1) { if (df->issuer_no_bc) { ca[0].bc = 0; ca[0].pathlen = -1; ca[0].ku = -1; } if (df->issuer_ca_false) { ca[0].bc = 1; ca[0].pathlen = -1; } }
 	if (df && nca >= 2 && df->issuer2_no_pathlen) ca[1].pathlen = -1; if (df && nca >= 1 && df->issuer_forged) ca[0].sig = 2;
